@@ -10,7 +10,7 @@
 From Coq Require Import List NArith ZArith Bool.
 From Coq.Strings Require Byte.
 From RimeV Require Import Base.Bytes Udb.Value Udb.ValueProofs Udb.Merge Udb.MergeProofs Udb.Tsv Udb.TsvProofs
-  Udb.Manager Udb.ManagerProofs Udb.Examples Udb.InitKinds Gen.Inits.
+  Udb.Manager Udb.ManagerProofs Udb.SyncAbstract Udb.SyncProofs Udb.Examples Udb.InitKinds Gen.Inits.
 Import ListNotations.
 
 (** ** the constructor facts of the current source *)
@@ -330,3 +330,33 @@ Theorem C17_sync_sign_tie_example :
   mags erased_ops (get_db w 0) = mags erased_ops (get_db w 1).
 Proof. exact ex_sync_sign_tie. Qed.
 Print Assumptions C17_sync_sign_tie_example.
+
+(** Convergence for any number N of installations: start from good dictionaries (well-formed,
+    userdb metadata, own user id) and no published snapshot; run two rounds of Synchronize,
+    where in each round every installation synchronises at least once (any order, any
+    repetitions) and the sync directory lists every installation.  Afterwards all
+    installations have the same keys, each with the same commit magnitude ([mg] is |commits|,
+    -1 for an absent key).  Signs are not claimed (C17_sync_sign_tie_example).  Needs a
+    printed double to contain no isspace byte (so that merged values stay snapshot-safe). *)
+Theorem C17_sync_two_rounds_converge : forall O,
+  (forall d, Forall (fun b => is_space b = false) (d_print O d) /\ d_parse O (d_print O d) <> None) ->
+  forall inits g ver N w p q,
+  length (w_dbs w) = N -> w_snaps w = repeat None N ->
+  (forall i, i < N -> good i (get_db w i)) ->
+  orders_ok N p -> orders_ok N q -> covers N p -> covers N q ->
+  let w' := run O inits g ver (sync_ops p ++ sync_ops q) w in
+  forall i i' k, i < N -> i' < N -> mg O (get_db w' i) k = mg O (get_db w' i') k.
+Proof. exact sync_two_rounds_converge. Qed.
+Print Assumptions C17_sync_two_rounds_converge.
+
+(** Not vacuous: the three-installation example world and its two rounds meet every hypothesis
+    (the computed outcome is C17_sync_two_rounds_example). *)
+Theorem C17_sync_convergence_hypotheses_example :
+  (forall d : D erased_ops, Forall (fun b => is_space b = false) (d_print erased_ops d) /\ d_parse erased_ops (d_print erased_ops d) <> None) /\
+  length (w_dbs ex_world) = 3 /\ w_snaps ex_world = repeat None 3 /\
+  (forall i, i < 3 -> good i (get_db ex_world i)) /\
+  orders_ok 3 ex_round1 /\ orders_ok 3 ex_round2 /\ covers 3 ex_round1 /\ covers 3 ex_round2.
+Proof.
+  split; [exact erased_print_clean|]. split; [reflexivity|]. split; [reflexivity|]. split; [exact ex_world_good|]. exact ex_rounds_ok.
+Qed.
+Print Assumptions C17_sync_convergence_hypotheses_example.
